@@ -9,7 +9,29 @@ PID = "C01"
 LEVEL = "proof"
 LEAN_TARGETS = ["SyneTune.Props.C01", "SyneTune.Props.C13Loop", "SyneTune.Props.C20Loop"]
 DRIVER = "SyneTune/Drivers/Loop.lean"
-THEOREMS = []
+THEOREMS = [
+    "SyneTune.C01.budget",
+    "SyneTune.C01.ids",
+    "SyneTune.C01.ids_next",
+    "SyneTune.C01.lifecycle",
+    "SyneTune.C01.resume_only_paused",
+    "SyneTune.C01.notify_partial",
+    "SyneTune.C01.notify_polled_partial",
+    "SyneTune.C01.notify_polled_swd",
+    "SyneTune.C01.notify_polled_counterexample",
+    "SyneTune.C01.notify_end_clash_counterexample",
+    "SyneTune.C13Loop.notified_failed",
+    "SyneTune.C13Loop.notified_external_stop",
+    "SyneTune.C13Loop.notified_once",
+    "SyneTune.C13Loop.continues",
+    "SyneTune.C13Loop.abort_names_failed",
+    "SyneTune.C20Loop.delete_only_when",
+    "SyneTune.C20Loop.deleted_only_stopped_or_named",
+    "SyneTune.C20Loop.removal_callback_deletes_named",
+    "SyneTune.C20Loop.resume_has_ckpt",
+    "SyneTune.C20Loop.pbt_partial",
+    "SyneTune.C20Loop.pbt_counterexample",
+]
 TRUSTED = [
     "hand-written model lean/SyneTune/Model/{Tuner,TuningStatus,StoppingCriterion}.lean tied to /repo by the loop correspondence stream",
     "Python harness harness/streams/loop.py (recorder callback, per-instance wrappers, scripted backend, clock stub)",
@@ -31,15 +53,18 @@ def gen_cases(rng, tier):
 
 
 def corpus():
+    """fixed cases + the witnesses of the `_counterexample` theorems (handed out by the model driver itself,
+    replayed on the real Tuner by the scripted environment)"""
     p = os.path.join(os.path.dirname(__file__), "..", "corpus", "c01.json")
-    return json.load(open(p)) if os.path.exists(p) else []
+    fixed = json.load(open(p)) if os.path.exists(p) else []
+    return fixed + loop.witness_specs(DRIVER)
 
 
 def run_impl(spec):
     t = loop.run_loop(spec)
     try:
         lines = loop.to_lines(t)
-        mon = loop.monitor_k(t) + loop.monitor_c01(t) + loop.monitor_c13_loop(t) + loop.monitor_c20_loop(t)
+        mon = loop.monitor_k(t) + loop.monitor_c01(t) + loop.monitor_c13_loop(t) + loop.monitor_c20_loop(t) + loop.monitor_witness(t)
         hist = loop.histogram(t)
         return {"lines": lines, "monitor": mon, "meta": {"hist": hist, "kinds": loop.call_kinds(t)}}
     finally:
@@ -48,3 +73,12 @@ def run_impl(spec):
 
 def nontrivial(trace):
     return len(set(trace.get("meta", {}).get("kinds", [])) & loop.INTERESTING) >= 3
+
+
+def extra(ctx):
+    """the witnesses of the `_counterexample` theorems are corpus cases (handed out by the model driver, replayed
+    call by call on the real Tuner); record whether the real code still shows each of them"""
+    seen = {(f.get("spec", {}).get("witness"), f["signature"]) for f in ctx.findings}
+    ctx.notes["counterexamples_replayed_on_real_code"] = {
+        thm: ((name, sig) in seen) for name, (thm, sig) in loop.WITNESSES.items() if thm in THEOREMS
+    }
